@@ -53,36 +53,41 @@ type runOut struct {
 }
 
 // runSlots lets TLC bind the abstract slots to the pool of every exported type.
-func runSlots(c *core.Ctx, casesFile, tag string) (map[string][]int, error) {
+func runSlots(c *core.Ctx, casesFile, tag string) (map[string][]int, map[string][]json.RawMessage, error) {
 	out := filepath.Join(c.Work, tag+"-slots.ndjson")
 	os.Remove(out)
 	res, err := runTLC(tlc.Opts{SpecDirs: listSpecDirs(c), Module: "ListCases", Config: "ListCases.cfg", Workers: 1,
 		Timeout: 10 * time.Minute, HeapMB: 4000, Scratch: c.Work,
 		Env: map[string]string{"VERIF_CASES": casesFile, "VERIF_OUT": out}})
 	if err != nil {
-		return nil, err
+		return nil, nil, err
 	}
 	if res.Violation {
-		return nil, fmt.Errorf("ListCases: %s", res.ErrText)
+		return nil, nil, fmt.Errorf("ListCases: %s", res.ErrText)
 	}
 	data, err := os.ReadFile(out)
 	if err != nil {
-		return nil, err
+		return nil, nil, err
 	}
 	slots := map[string][]int{}
+	extras := map[string][]json.RawMessage{}
 	for _, l := range strings.Split(strings.TrimSpace(string(data)), "\n") {
 		var r struct {
-			ID    string `json:"id"`
-			Slots []int  `json:"slots"`
+			ID    string            `json:"id"`
+			Slots []int             `json:"slots"`
+			Extra []json.RawMessage `json:"extra"`
 		}
 		if err := json.Unmarshal([]byte(l), &r); err != nil {
-			return nil, fmt.Errorf("slots line: %v", err)
+			return nil, nil, fmt.Errorf("slots line: %v", err)
 		}
 		if len(r.Slots) == 6 {
 			slots[r.ID] = r.Slots
 		}
+		if len(r.Extra) > 0 {
+			extras[r.ID] = r.Extra
+		}
 	}
-	return slots, nil
+	return slots, extras, nil
 }
 
 // runTypes: TLC exports the pools (SemCases) and binds the slots (ListCases);
@@ -104,9 +109,15 @@ func runTypes(c *core.Ctx, bin, prop, tag string, ids []string, types []*engs.Ty
 		return o, nil
 	}
 	t0 := time.Now()
-	slots, err := runSlots(c, r.CasesFile, tag)
+	slots, extras, err := runSlots(c, r.CasesFile, tag)
 	if err != nil {
 		return nil, err
+	}
+	// leaf-like element types run on XPool(T) = Pool(T) + the leaf tokens it lacks (ListPool.tla)
+	for _, cs := range r.Cases {
+		if err := extendPool(cs, extras[cs.ID]); err != nil {
+			return nil, err
+		}
 	}
 	o.Times["slots"] = time.Since(t0).Seconds()
 	byID := map[string]*engs.Type{}
@@ -278,4 +289,39 @@ func (o *runOut) countMod(line []byte) {
 	statMu.Lock()
 	o.InputsMod[h.Op] += n
 	statMu.Unlock()
+}
+
+// extendPool appends TLC's extra pool entries to the case line the driver
+// materialises and ListTrace re-derives (Ev.pool = XPool(Ev.t)).
+func extendPool(cs *engs.Case, extra []json.RawMessage) error {
+	if len(extra) == 0 {
+		return nil
+	}
+	var line map[string]json.RawMessage
+	if err := json.Unmarshal(cs.Raw, &line); err != nil {
+		return err
+	}
+	var pool []json.RawMessage
+	if err := json.Unmarshal(line["pool"], &pool); err != nil {
+		return err
+	}
+	for _, e := range extra {
+		var pe engs.PoolEntry
+		if err := json.Unmarshal(e, &pe); err != nil {
+			return err
+		}
+		pool = append(pool, e)
+		cs.Pool = append(cs.Pool, pe)
+	}
+	np, err := json.Marshal(pool)
+	if err != nil {
+		return err
+	}
+	line["pool"] = np
+	raw, err := json.Marshal(line)
+	if err != nil {
+		return err
+	}
+	cs.Raw = raw
+	return nil
 }
